@@ -18,6 +18,7 @@ import (
 	"sort"
 	"strings"
 	"time"
+	"unicode/utf8"
 
 	"github.com/miekg/dns"
 	. "verif/harness/common"
@@ -1295,6 +1296,177 @@ func runGen(r *Rng, tier string) {
 	}
 }
 
+// ---------------------------------------------------------------- raw octets >= 0x80 in presentation names
+// Names given to the library with unescaped high octets. DNS folds only ASCII A-Z (RFC 4343); Go's
+// strings.ToLower / ToUpper / Map are rune based: they fold non-ASCII letters and replace invalid UTF-8 by
+// U+FFFD. Fixed inputs, no randomness.
+var rawSeqs = []string{
+	"\xc3\x89", "\xc3\x9c", "\xce\xa9", // valid UTF-8 upper-case letters: E acute, U diaeresis, Omega
+	"\xe2\x84\xaa", "\xc5\xbf", // Kelvin sign (lower-cases to k), long s (upper-cases to S)
+	"\xc3\xa9",                     // e acute: lower case, no ASCII relation
+	"\xff", "\xfe", "\xc3", "\x80", // invalid UTF-8
+}
+
+func rawShowName(ls [][]byte) string {
+	var sb strings.Builder
+	for _, l := range ls {
+		sb.Write(l)
+		sb.WriteByte('.')
+	}
+	return sb.String()
+}
+
+func asciiUpper(b []byte) []byte {
+	o := make([]byte, len(b))
+	for i, c := range b {
+		if c >= 'a' && c <= 'z' {
+			c -= 32
+		}
+		o[i] = c
+	}
+	return o
+}
+
+// class of a raw name: "invalid" (not UTF-8), "folded" (Unicode lower-casing changes more than A-Z), "plain"
+func rawClass(name string) string {
+	switch {
+	case !utf8.ValidString(name):
+		return "invalid"
+	case strings.ToLower(name) != string(lowerASCII([]byte(name))):
+		return "folded"
+	}
+	return "plain"
+}
+
+func rawNames() [][][]byte {
+	var out [][][]byte
+	for _, q := range rawSeqs {
+		for _, x := range []string{"a" + q + "B", q, q + "Zz", "Zz" + q} {
+			out = append(out,
+				[][]byte{[]byte(x), []byte("Mid"), []byte("Org")},
+				[][]byte{[]byte("Www"), []byte(x), []byte("Org")},
+				[][]byte{[]byte("Www"), []byte("Mid"), []byte(x)})
+		}
+	}
+	return out
+}
+
+func runRaw() {
+	pub := []byte{1, 2, 3, 4, 5}
+	rd := dnskeyRdata(257, 3, 8, pub)
+	for ni, ls := range rawNames() {
+		name := rawShowName(ls)
+		cls := rawClass(name)
+		st["raw_"+cls]++
+		in := hashIn{Labels: labelsIn(ls), Name: name, Alg: 1}
+		// ---- ToDS, all digest types
+		for _, dt := range []uint8{1, 2, 4, 5} {
+			ds := mkKey(name, 257, 3, 8, pub).ToDS(dt)
+			pre := append(wireOf(lowerLabels(ls)), rd...)
+			want := refDigest(dt, pre)
+			st["raw_ds_checked"]++
+			kin := keyIn{Flags: 257, Proto: 3, Alg: 8, Seed: Hx(pub), N: len(pub), Owner: labelsIn(ls), Digest: dt}
+			if ds == nil || !strings.EqualFold(ds.Digest, hex.EncodeToString(want)) {
+				switch cls {
+				case "invalid":
+					Viol("C17/ToDS/raw-invalid-utf8-replaced", "owner with a raw octet that is not UTF-8: CanonicalName (strings.Map) replaces it by U+FFFD (EF BF BD) before the digest is taken", kin)
+				default:
+					Viol("C17/ToDS/digest", "owner with raw non-ASCII octets: the digest is not over the owner's octets with only A-Z folded", kin)
+				}
+				continue
+			}
+			{ // the model takes the labels as octets
+				dg := strings.ToLower(ds.Digest)
+				if dt == 4 || dt == 5 {
+					f := sha256.Sum256(pre)
+					dg = hex.EncodeToString(f[:])
+				}
+				Emit("to_ds", []string{labelsArg(ls), "257", "3", "8", Hx(pub), Itoa(len(pub)), Itoa(int(dt))}, fmt.Sprintf("%d,8,%d,%s", ds.KeyTag, dt, dg))
+			}
+		}
+		// ---- HashName
+		for _, c := range []struct {
+			iter uint16
+			salt string
+		}{{0, ""}, {2, "aabb"}} {
+			sb, _ := saltBytes(c.salt)
+			got := dns.HashName(name, 1, c.iter, c.salt)
+			want := b32.EncodeToString(refNsec3Hash(ls, sb, int(c.iter)))
+			in.Iter, in.Salt = c.iter, c.salt
+			st["raw_hash_checked"]++
+			if got != want {
+				switch cls {
+				case "invalid":
+					Viol("C17/HashName/raw-invalid-utf8-replaced", fmt.Sprintf("HashName=%s, RFC 5155 gives %s: strings.ToLower replaces the raw non-UTF-8 octet by U+FFFD", got, want), in)
+				case "folded":
+					Viol("C17/HashName/raw-nonascii-folded", fmt.Sprintf("HashName=%s, RFC 5155 gives %s: strings.ToLower folds a non-ASCII letter (only A-Z are folded in DNS)", got, want), in)
+				default:
+					Viol("C17/HashName/value", fmt.Sprintf("HashName=%s, RFC 5155 gives %s", got, want), in)
+				}
+			} else {
+				Emit("hash_name", []string{labelsArg(ls), "1", Itoa(int(c.iter)), c.salt}, Hs(got))
+			}
+		}
+		// ---- Match / Cover for the name in the zone made of its last labels
+		if ni%3 != 2 { // the raw octets are not in the zone part
+			zone := ls[1:]
+			if ni%3 == 1 {
+				zone = ls[2:]
+			}
+			xh := refNsec3Hash(ls, nil, 0)
+			for _, c := range []struct {
+				oh, nh       []byte
+				match, cover bool
+			}{{xh, addHash(xh, 9), true, false}, {addHash(xh, -5), addHash(xh, 5), false, true}, {addHash(xh, 5), addHash(xh, -5), false, false}} {
+				ownerLs := append([][]byte{[]byte(b32.EncodeToString(c.oh))}, zone...)
+				rr := &dns.NSEC3{Hdr: dns.RR_Header{Name: rawShowName(ownerLs), Rrtype: dns.TypeNSEC3, Class: dns.ClassINET}, Hash: 1, HashLength: 20,
+					NextDomain: b32.EncodeToString(c.nh)}
+				gm, gc := rr.Match(name), rr.Cover(name)
+				nin := n3In{Owner: rr.Hdr.Name, OwnerLbls: labelsIn(ownerLs), Alg: 1, Next: rr.NextDomain, Name: name, NameLbls: labelsIn(ls), NameHash: b32.EncodeToString(xh)}
+				st["raw_n3_checked"]++
+				if gm != c.match {
+					if cls == "plain" {
+						Viol("C17/Match/value", fmt.Sprintf("Match=%v, expected %v", gm, c.match), nin)
+					} else {
+						Viol("C17/Match/raw-nonascii-name", fmt.Sprintf("Match=%v, expected %v: the name has raw non-ASCII octets that HashName folds or replaces", gm, c.match), nin)
+					}
+				}
+				if gc != c.cover {
+					if cls == "plain" {
+						Viol("C17/Cover/value", fmt.Sprintf("Cover=%v, expected %v", gc, c.cover), nin)
+					} else {
+						Viol("C17/Cover/raw-nonascii-name", fmt.Sprintf("Cover=%v, expected %v: the name has raw non-ASCII octets that HashName folds or replaces", gc, c.cover), nin)
+					}
+				}
+				Emit("n3", []string{labelsArg(ownerLs), "1", "0", "", Hs(rr.NextDomain), labelsArg(ls)}, Btoa(gm)+","+Btoa(gc))
+			}
+		}
+	}
+	// ---- the zone test: labels that differ in octets but are equal after Unicode upper-casing / U+FFFD replacement
+	for _, p := range [][2]string{{"\xc5\xbf", "s"}, {"\xc3\xa9", "\xc3\x89"}, {"\xff", "\xfe"}, {"z\xc3", "z\x80"}} {
+		zone := [][]byte{[]byte(p[0])}
+		nameLs := [][]byte{[]byte("a"), []byte(p[1])}
+		name := rawShowName(nameLs)
+		h := dns.HashName(name, 1, 0, "") // the library's own hash, so that only the zone test decides
+		if h == "" {
+			continue
+		}
+		mrr := &dns.NSEC3{Hdr: dns.RR_Header{Name: h + "." + rawShowName(zone), Rrtype: dns.TypeNSEC3, Class: dns.ClassINET}, Hash: 1, HashLength: 20, NextDomain: strings.Repeat("V", 32)}
+		crr := &dns.NSEC3{Hdr: dns.RR_Header{Name: strings.Repeat("0", 32) + "." + rawShowName(zone), Rrtype: dns.TypeNSEC3, Class: dns.ClassINET}, Hash: 1, HashLength: 20, NextDomain: strings.Repeat("V", 32)}
+		nin := n3In{Owner: mrr.Hdr.Name, Alg: 1, Next: mrr.NextDomain, Name: name, NameLbls: labelsIn(nameLs), OwnerLbls: labelsIn(zone)}
+		st["raw_zone_checked"]++
+		Emit("n3", []string{labelsArg(append([][]byte{[]byte(h)}, zone...)), "1", "0", "", Hs(mrr.NextDomain), labelsArg(nameLs)}, Btoa(mrr.Match(name))+","+Btoa(mrr.Cover(name)))
+		Emit("n3", []string{labelsArg(append([][]byte{[]byte(strings.Repeat("0", 32))}, zone...)), "1", "0", "", Hs(crr.NextDomain), labelsArg(nameLs)}, Btoa(crr.Match(name))+","+Btoa(crr.Cover(name)))
+		if mrr.Match(name) {
+			Viol("C17/Match/raw-nonascii-zone-folded", "Match is true for a name outside the record's zone: the zone labels differ in octets and are equal only after strings.ToUpper (non-ASCII case folding / U+FFFD)", nin)
+		}
+		if crr.Cover(name) {
+			nin.Owner = crr.Hdr.Name
+			Viol("C17/Cover/raw-nonascii-zone-folded", "Cover is true for a name outside the record's zone: the zone labels differ in octets and are equal only after strings.ToUpper (non-ASCII case folding / U+FFFD)", nin)
+		}
+	}
+}
+
 func runC17(r *Rng, tier string, n int) {
 	nk, nds, nh, nn3, nv, nrsa := 400, 500, 420, 60, 1500, 20
 	if tier == "thorough" {
@@ -1310,6 +1482,7 @@ func runC17(r *Rng, tier string, n int) {
 	runValidity(r, nv)
 	runKeyEnc(r, nrsa)
 	runKeyText(r)
+	runRaw()
 	runGen(r, tier)
 	Stat(st)
 }
